@@ -16,6 +16,7 @@ read and `entryLevels f = ([], false)` (`Proofs.Topics.entryLevels_of_not_sys/_o
 property's quantifier).
 -/
 import Mqtt.Proofs.BrokerFanoutGen
+import Mqtt.Proofs.BrokerRefineCor
 
 set_option linter.unusedSimpArgs false
 
@@ -386,5 +387,50 @@ example :
     abs b1.topics.sroot = [([[97], [35]], 1000, 1), ([[97], [43]], 1, 0), ([[97], [98]], 1, 2)] ∧
     abs b2.topics.sroot = [([[97], [35]], 1000, 1), ([[97], [43]], 1, 0)] := by
   decide
+
+/-! ### the refinement theorem, specialised: SUBSCRIBE / UNSUBSCRIBE after any history -/
+
+open Mqtt.Proofs.BrokerRefine (okRun specRun) in
+open Mqtt.Spec.Broker (Accepts) in
+/-- **Refinement (Proofs/BrokerRefine.lean: `Broker_refines_spec`) for C07.**
+After any history admitted by `okRun` (side condition `okEv`: filters `good`,
+...; see C01_refines_reference), a SUBSCRIBE / UNSUBSCRIBE with `good` filters on a live
+connection is accepted by the reference broker; explicitly: the SUBACK is the
+first output and carries the reference broker's return codes (`subCode`: the
+granted QoS, 0x80 for an invalid filter or QoS byte), the UNSUBACK is the only
+output; and the request is effective when it is acknowledged - afterwards the
+subscription trie holds exactly the subscriptions the reference broker holds
+(`HeldInv` with the `held` list of `Spec.Broker.step`), so that by
+C01_refines_reference every later PUBLISH is forwarded according to them. -/
+theorem C07_refines_reference (es : List Ev) (hok : okRun {} es = true) (c id : Nat)
+    (hl : (run {} es).1.alive c = true) :
+    (∀ ts : List (Bytes × Nat), (∀ tq ∈ ts, good tq.1 = true) →
+      Accepts (Mqtt.Spec.Broker.step (specRun {} es).1 (.packet c (.subscribe id ts))).2
+        (step (run {} es).1 (.packet c (.subscribe id ts))).2 ∧
+      (∃ rest, (step (run {} es).1 (.packet c (.subscribe id ts))).2 =
+        .send c (.suback id (ts.map (fun t => Mqtt.Spec.Broker.subCode t.1 t.2))) :: rest) ∧
+      HeldInv (step (run {} es).1 (.packet c (.subscribe id ts))).1.topics.sroot
+        (Mqtt.Spec.Broker.step (specRun {} es).1 (.packet c (.subscribe id ts))).1.held) ∧
+    (∀ ts : List Bytes, (∀ t ∈ ts, good t = true) →
+      Accepts (Mqtt.Spec.Broker.step (specRun {} es).1 (.packet c (.unsubscribe id ts))).2
+        (step (run {} es).1 (.packet c (.unsubscribe id ts))).2 ∧
+      (step (run {} es).1 (.packet c (.unsubscribe id ts))).2 = [.send c (.unsuback id)] ∧
+      HeldInv (step (run {} es).1 (.packet c (.unsubscribe id ts))).1.topics.sroot
+        (Mqtt.Spec.Broker.step (specRun {} es).1 (.packet c (.unsubscribe id ts))).1.held) := by
+  have hR := Mqtt.Proofs.BrokerRefine.reach es hok
+  constructor
+  · intro ts hg
+    have hokev : Mqtt.Proofs.BrokerRefine.okEv (run {} es).1 (.packet c (.subscribe id ts)) = true := by
+      show ts.all (fun tq => good tq.1) = true
+      rw [List.all_eq_true]; exact hg
+    obtain ⟨r1, r2, r3⟩ := Mqtt.Proofs.BrokerRefine.reach_step es hok _ hokev
+    obtain ⟨⟨rest, h1, _, _⟩, _, _⟩ := Mqtt.Proofs.BrokerRefine.subscribe_refines hR c hl id ts hg
+    exact ⟨r2, ⟨rest, h1⟩, r1.held⟩
+  · intro ts hg
+    have hokev : Mqtt.Proofs.BrokerRefine.okEv (run {} es).1 (.packet c (.unsubscribe id ts)) = true := by
+      show ts.all (fun t => good t) = true
+      rw [List.all_eq_true]; exact hg
+    obtain ⟨r1, r2, r3⟩ := Mqtt.Proofs.BrokerRefine.reach_step es hok _ hokev
+    exact ⟨r2, (Mqtt.Proofs.BrokerRefine.unsubscribe_refines hR c hl id ts hg).1, r1.held⟩
 
 end Mqtt.Properties.C07
